@@ -32,6 +32,8 @@ EXTENDS Naturals, Sequences, FiniteSets
 CONSTANTS Bnd,          \* boundary, a sequence of symbols from {"b","c","d"}
           Forms,        \* set of forms to explore; form = Seq([kind |-> "field"|"file", content |-> Seq(sym)])
           Preambles,    \* set of preambles (symbol sequences without line-break+delimiter), <<>> = none
+          Epilogues,    \* set of what follows the close-delimiter "--boundary--": <<"r","n">> (what clients send), <<>> (RFC 2046: the line
+                        \* break belongs to the optional epilogue), transport padding, epilogue text
           MaxChunk,     \* receive_data() gets 0..MaxChunk symbols at a time
           Limits,       \* set of [parts |-> max_form_parts, mem |-> max_form_memory_size]  (Unlimited = 99)
           HoldFix, OpenFix,
@@ -56,7 +58,7 @@ HeaderOf(p) == IF p.kind = "field" THEN <<"h", "h">> ELSE <<"g", "g", "g">>
 RECURSIVE EncodeParts(_)
 EncodeParts(ps) == IF ps = <<>> THEN <<>>
                    ELSE Delim \o CRLF \o HeaderOf(Head(ps)) \o CRLF \o CRLF \o Head(ps).content \o CRLF \o EncodeParts(Tail(ps))
-Encode(f, p) == (IF p = <<>> THEN <<>> ELSE p \o CRLF) \o EncodeParts(f) \o Delim \o <<"d", "d">> \o CRLF
+Encode(f, p, ep) == (IF p = <<>> THEN <<>> ELSE p \o CRLF) \o EncodeParts(f) \o Delim \o <<"d", "d">> \o ep
 
 \* ---------------------------------------------------------------- regex emulation on symbol sequences
 At(s, i) == IF i >= 1 /\ i <= Len(s) THEN s[i] ELSE "$"
@@ -119,7 +121,8 @@ Drop(s, k) == SubSeq(s, k + 1, Len(s))
 
 \* ---------------------------------------------------------------- behaviour
 Init == /\ form \in TheForms /\ pre \in Preambles /\ lim \in Limits
-        /\ body = Encode(form, pre) /\ pos = 0
+        /\ \E ep \in Epilogues : body = Encode(form, pre, ep)
+        /\ pos = 0
         /\ st = "PREAMBLE" /\ buf = <<>> /\ drained = TRUE
         /\ cur = <<>> /\ curKind = "none" /\ items = <<>> /\ nparts = 0 /\ mem = 0 /\ result = "" /\ maxheld = 0
 
